@@ -294,8 +294,8 @@ def _(sequence: GeometricSequence, backend: SymbolicBackend) -> GeometricSequenc
 def _(sequence: ClosedFormSequence, backend: SymbolicBackend) -> ClosedFormSequenceV1:
     return ClosedFormSequenceV1(
         type=sequence.type,
-        sum=backend.serialize(sequence.sum),
-        prod=backend.serialize(sequence.prod),
+        sum=None if sequence.sum is None else backend.serialize(sequence.sum),
+        prod=None if sequence.prod is None else backend.serialize(sequence.prod),
         num_terms_symbol=backend.serialize(sequence.num_terms_symbol),
     )
 
